@@ -997,6 +997,33 @@ func threadConstEdges(f *Function, k *BasicBlock) bool {
 			}
 		}
 		k.Instrs = k.Instrs[len(phis):]
+		// a branch on what is now a constant becomes a jump
+		if cst, ok := iff.Cond.(*Const); ok && cst.Value != nil && cst.Value.Kind() == constant.Bool && len(k.Succs) == 2 {
+			taken, dead := k.Succs[0], k.Succs[1]
+			if !constant.BoolVal(cst.Value) {
+				taken, dead = dead, taken
+			}
+			if taken != dead {
+				// remove k from dead's predecessors (and the matching φ edges)
+				for i, p := range dead.Preds {
+					if p == k {
+						dead.Preds = append(dead.Preds[:i:i], dead.Preds[i+1:]...)
+						for _, ins := range dead.Instrs {
+							ph, ok := ins.(*Phi)
+							if !ok {
+								break
+							}
+							ph.Edges = append(ph.Edges[:i:i], ph.Edges[i+1:]...)
+						}
+						break
+					}
+				}
+				j := &Jump{}
+				j.setBlock(k)
+				k.Instrs[len(k.Instrs)-1] = j
+				k.Succs = []*BasicBlock{taken}
+			}
+		}
 	}
 	return true
 }
